@@ -1,0 +1,36 @@
+//! Verification seams. Compiled only with `--cfg multiqueue2_verif`; with the flag off
+//! (the default) this module does not exist and the crate is built exactly as before.
+//!
+//! The harness links `multiqueue2_verif_rt` in through a shadow manifest outside the
+//! repository, so `Cargo.toml` and `Cargo.lock` are untouched.
+
+pub use multiqueue2_verif_rt::shim::parking_lot;
+pub use multiqueue2_verif_rt::shim::{fence, sleep, yield_now, AtomicPtr, AtomicUsize, Mutex};
+
+pub use multiqueue2_verif_rt::hooks::{on_alloc, on_dealloc, probe, touch};
+
+#[allow(dead_code)]
+/// Rare-branch probe identifiers (see `multiqueue2_verif_rt::state::Probe`).
+pub mod p {
+    pub const MULTI_CAS_RETRY: usize = 0;
+    pub const PIN_CONFLICT_FULL: usize = 1;
+    pub const PIN_RECHECK_FAILED: usize = 2;
+    pub const MAX_DIFF_NONE: usize = 3;
+    pub const GROUP_CHANGED_DURING_SCAN: usize = 4;
+    pub const DISCONNECT_SECOND_LOOK: usize = 5;
+    pub const EPOCH_CYCLE_STARTED: usize = 6;
+    pub const EPOCH_CYCLE_COMPLETED: usize = 7;
+    pub const TASK_PARKED_CONSUMER: usize = 9;
+    pub const TASK_PARKED_PRODUCER: usize = 10;
+    pub const CLAIMED_BEFORE_PUBLISH: usize = 11;
+    pub const ADD_STREAM_SNAPSHOT: usize = 12;
+    pub const ADD_STREAM_CAS_RETRY: usize = 13;
+    pub const REMOVE_READER_UNLINKED: usize = 14;
+    pub const SEND_FULL_RETURNED: usize = 17;
+    pub const RECV_EMPTY_RETURNED: usize = 18;
+    pub const RECV_COMMIT_RETRY: usize = 19;
+    pub const TAIL_RELOADED: usize = 20;
+    pub const SENDER_DROP_DECREMENTED: usize = 21;
+    pub const TOKEN_REMOVED: usize = 22;
+    pub const FREE_DEFERRED: usize = 23;
+}
